@@ -52,6 +52,9 @@ struct State {
     log: OracleLog,
     /// permit inexact sqrt by logging a caller-supplied answer? (never on the valid stream)
     table: Vec<(i32, i32, BigRat, BigRat, f64)>, // (k, j, cos, sin, true angle)
+    /// when set, an inverse-trig question outside the lattice is answered with the exact rational value of the
+    /// f64 libm result (used only where the answer is an output that is not fed back into trigonometry)
+    float_fallback: bool,
 }
 
 thread_local! {
@@ -70,7 +73,12 @@ pub fn reset() {
         s.base = None;
         s.log = OracleLog::default();
         s.table.clear();
+        s.float_fallback = false;
     })
+}
+
+pub fn set_float_fallback(on: bool) {
+    ST.with(|s| s.borrow_mut().float_fallback = on)
 }
 
 pub fn take_log() -> OracleLog {
@@ -201,6 +209,7 @@ fn oracle_inverse(
     lo_closed: bool,
     hi_closed: bool,
     pred: &dyn Fn(&BigRat, &BigRat) -> bool,
+    fallback: &dyn Fn() -> f64,
 ) -> BigRat {
     ST.with(|st| {
         let st = st.borrow();
@@ -236,6 +245,7 @@ fn oracle_inverse(
         }
         match found {
             Some((k, j)) => angle_value(&st.base, k, j),
+            None if st.float_fallback => BigRat::from_f64(fallback()),
             None => panic!("unmodelled inverse trig argument ({})", what),
         }
     })
@@ -564,7 +574,8 @@ impl Float for Xq {
     fn asin(self) -> Xq {
         let x = self.rat();
         let h = std::f64::consts::FRAC_PI_2;
-        let r = oracle_inverse("asin", -h, h, true, true, &|_c, s| *s == x);
+        let xf = x.to_f64();
+        let r = oracle_inverse("asin", -h, h, true, true, &|_c, s| *s == x, &|| xf.asin());
         ST.with(|st| {
             let mut st = st.borrow_mut();
             if !st.log.asin.iter().any(|(k, _)| *k == x) {
@@ -575,7 +586,8 @@ impl Float for Xq {
     }
     fn acos(self) -> Xq {
         let x = self.rat();
-        let r = oracle_inverse("acos", 0.0, std::f64::consts::PI, true, true, &|c, _s| *c == x);
+        let xf = x.to_f64();
+        let r = oracle_inverse("acos", 0.0, std::f64::consts::PI, true, true, &|c, _s| *c == x, &|| xf.acos());
         ST.with(|st| {
             let mut st = st.borrow_mut();
             if !st.log.acos.iter().any(|(k, _)| *k == x) {
@@ -587,7 +599,8 @@ impl Float for Xq {
     fn atan(self) -> Xq {
         let x = self.rat();
         let h = std::f64::consts::FRAC_PI_2;
-        let r = oracle_inverse("atan", -h, h, false, false, &|c, s| !c.is_zero() && s.div(c) == x);
+        let xf = x.to_f64();
+        let r = oracle_inverse("atan", -h, h, false, false, &|c, s| !c.is_zero() && s.div(c) == x, &|| xf.atan());
         ST.with(|st| {
             let mut st = st.borrow_mut();
             if !st.log.atan.iter().any(|(k, _)| *k == x) {
@@ -611,7 +624,7 @@ impl Float for Xq {
                     && (s.is_zero() == y.is_zero())
                     && (c.is_neg() == x.is_neg())
                     && (c.is_zero() == x.is_zero())
-            })
+            }, &|| y.to_f64().atan2(x.to_f64()))
         };
         ST.with(|st| {
             let mut st = st.borrow_mut();
